@@ -8,7 +8,7 @@
       bit 8 — the spec rejects the MODEL's answer (must coincide with a _refuted class)
       bits 16, 32, ... — the query lies in a known-finding class (one bit per class)
     Definitions only. *)
-From PLS Require Export Spec.Pytest Model.Cache.
+From PLS Require Export Spec.Pytest Model.Cache Model.Diagnostics.
 
 Inductive wop :=
 | OAnalyze (cleanup : bool) (F : path) (v : facts)
@@ -45,6 +45,9 @@ Inductive query :=
 | QNameAt (F : path) (line col : N) (ans : option string)
 | QRefsX (d : fdef) (ans : list usage) (gotos : list (usage * option fdef))
 | QAgree (F : path) (avail : list fdef) (per : list (string * option fdef * option fdef))
+| QCycles (ans : list cycle)
+| QCyclesInFile (F : path) (ans : list cycle)
+| QMismatches (F : path) (ans : list mismatch)
 | QDump (d : dump).
 
 Inductive step := Op (o : wop) | Ask (q : query).
@@ -79,6 +82,11 @@ Definition dump_ok (s : index) (d : dump) : bool :=
   && (len (dp_cache d) =? len (file_cache s))
   && (dp_version d =? version s).
 
+Definition cycle_eqb (a b : cycle) : bool :=
+  list_eqb String.eqb (cy_path a) (cy_path b) && fdef_eqb (cy_fixture a) (cy_fixture b).
+Definition mismatch_eqb (a b : mismatch) : bool :=
+  fdef_eqb (mm_fixture a) (mm_fixture b) && fdef_eqb (mm_dependency a) (mm_dependency b).
+
 (** ** the model's answer, per query *)
 Definition opt_def_eqb := opt_eqb fdef_eqb.
 
@@ -111,6 +119,9 @@ Section Verdict.
                              | (n, c, r) => opt_def_eqb (closest dk roots s F n) c
                                             && opt_def_eqb (resolve_for_file s F n) r
                              end) per
+    | QCycles ans => list_eqb cycle_eqb (cycles dk roots s) ans
+    | QCyclesInFile F ans => list_eqb cycle_eqb (cycles_in_file dk roots s F) ans
+    | QMismatches F ans => set_eqb mismatch_eqb (mismatches dk roots s F) ans
     | QDump d => dump_ok s d
     end.
 End Verdict.
@@ -130,6 +141,19 @@ Definition post_query (dk : disk) (roots : list path) (s : index) (q : query) : 
   | QAgree F _ per =>
       fold_left (fun s x => post_closest_with dk roots s (fun _ => true) F (fst (fst x))) per
                 (post_available dk roots s F)
+  | QCycles _ | QCyclesInFile _ _ => post_cycles dk roots s
+  | QMismatches F _ =>
+      fold_left (fun s n =>
+                   match max_by_key d_line (filter (fun d => path_eqb (d_file d) F) (defs_named s n)) with
+                   | None => s
+                   | Some f =>
+                       fold_left (fun s dn =>
+                                    if String.eqb dn (d_name f)
+                                    then post_closest_with dk roots s (fun x => negb (fdef_eqb x f)) F dn
+                                    else post_closest_with dk roots s (fun _ => true) F dn)
+                                 (d_deps f) s
+                   end)
+                (file_def_names s F) s
   | _ => s
   end.
 
